@@ -2154,6 +2154,16 @@ class Interp:
         if isinstance(base, Unknown):
             return Unknown("subscript of " + base.why)
         if isinstance(base, Expr):
+            key = self.eval(node.slice, env)
+            if isinstance(key, str) and type(key) is str:
+                # a record-like value (label, value, label, value, ...): the field that follows its label
+                tops = list(base.top_atoms())
+                if len(tops) == 1 and tops[0].kind == "fn" and base.eq(alg.atom_expr(tops[0])):
+                    a = tops[0].args
+                    for k in range(len(a) - 1):
+                        if isinstance(a[k], str) and a[k] == key and isinstance(a[k + 1], Expr):
+                            return a[k + 1]
+                return Unknown("field %r of %r" % (key, base))
             # scalar indexed like an array (e.g. `...` on 0-d): keep the value
             return base
         if isinstance(base, FuncRef) and base.kind == "ext" and base.dotted in ("numpy.r_",):
